@@ -109,6 +109,24 @@ pub fn yp(label: &'static str) {
   }
 }
 
+thread_local! {
+  static OPTIONAL: RefCell<Vec<&'static str>> = const { RefCell::new(Vec::new()) };
+}
+
+/// A scheduled thread asks for the optional yield point `label` (see `yp_opt`) to stop it too.
+pub fn enable(label: &'static str) {
+  OPTIONAL.with(|o| o.borrow_mut().push(label));
+}
+
+/// Optional yield point: sits in code shared by several scenarios (e.g. a helper called from the
+/// synchronous calls and from the async streams alike) and stops only the scheduled threads
+/// that asked for it with `enable(label)`; the grain of all other scenarios is unchanged.
+pub fn yp_opt(label: &'static str) {
+  if OPTIONAL.with(|o| o.borrow().contains(&label)) {
+    yp(label);
+  }
+}
+
 /// Yield point in front of `m.lock()`. A scheduled thread stops at `label`; when it is granted a
 /// step while another thread holds the mutex it cannot make progress: it stops again at
 /// `blocked_label` (by convention `label` followed by '!') and waits for the next grant. When it
